@@ -99,6 +99,10 @@ func c01Program(cs *caseSet, nVal int) {
 			enc := wp.Encode(nil)
 			cs.addDecodes("C01 Decode", tText, enc, fmt.Sprintf("ok %d %s", len(enc), expG.Text()),
 				"Decode of a (permuted) reference encoding is not the value with defaults filled", nt)
+			if i%4 == 1 {
+				cs.add(opCase{Kind: "C01 Decode+FromWire", Impl: "decodevw " + tText + " " + hx(enc), Want: "ok " + expG.Text(),
+					Why: "binary.Decode + FromWire of a (permuted) reference encoding is not the value with defaults filled", nontrivial: nt})
+			}
 			if i%3 == 0 {
 				if gi, what, ok := vg.Invalidate(tt.T, g); ok {
 					if _, err := codec.ToWire(tt.T, gi); err == nil {
@@ -110,6 +114,13 @@ func c01Program(cs *caseSet, nVal int) {
 						Why: "a schema-violating value (" + what + ") was serialised by ToWire instead of being reported", nontrivial: true})
 					cs.add(opCase{Kind: "C01 Encode rejects", Impl: "encode " + tText + " " + it, Model: "encode " + tText + " " + it, Canon: fmt.Sprintf("hex:%d", code), Want: "err",
 						Why: "a schema-violating value (" + what + ") was serialised by Encode instead of being reported", nontrivial: true})
+					// … and through the value path to bytes: ToWire may hand out lazy containers whose
+					// violation only shows when the protocol's writer goes through them
+					cs.add(opCase{Kind: "C01 ToWire+protocol.Encode rejects", Impl: "towireenc " + tText + " " + it, Want: "err",
+						Why: "a schema-violating value (" + what + ") went through ToWire and the protocol's Encode without an error", nontrivial: true})
+					// … after which the same path must serve a valid value as if nothing had happened
+					cs.add(opCase{Kind: "C01 ToWire+protocol.Encode after a rejected value", Impl: "towireenc " + tText + " " + gt, Canon: fmt.Sprintf("hex:%d", code), Want: wantW,
+						Why: "the bytes written by ToWire + the protocol's Encode, right after that path rejected another value, do not decode to the logical value", nontrivial: true})
 				}
 			}
 		}
@@ -118,6 +129,7 @@ func c01Program(cs *caseSet, nVal int) {
 			continue
 		}
 		c01Big(cs, vg, codec, tt.T, sd)
+		c01Deep(cs, vg, codec, tt.T, sd)
 		// a nil slice in a REQUIRED list field is the empty list — also when the field's type is a
 		// typedef (chain) of a list: one value per such field
 		for idx, f := range sd.Fields {
@@ -251,6 +263,79 @@ func c01Big(cs *caseSet, vg *valgen.Gen, codec *refcodec.Codec, t *gtext.T, sd *
 		"Decode of a reference encoding holding a payload over 1 MiB, followed by further fields, is not the value", true)
 }
 
+// deepLeft is how many more deeply nested values this run adds: through a list of the struct's own
+// kind, and through a field of its own kind.
+var deepLeft = map[bool]int{true: 3, false: 2}
+
+// c01Deep: a VALID value of a struct that contains itself (through an optional field of its own
+// type, or a list of it), nested 70 to 200 levels deep — every codec path has to take it, as it takes
+// the shallow ones (depth limits belong to hostile input, C03/C13, not to valid values).
+func c01Deep(cs *caseSet, vg *valgen.Gen, codec *refcodec.Codec, t *gtext.T, sd *gtext.StructDef) {
+	if sd.Arity() != 0 {
+		return
+	}
+	at, viaList := -1, false
+	for i, f := range sd.Fields {
+		if f.Req {
+			continue
+		}
+		rt := f.T.Root()
+		if rt.K == gtext.KList && rt.Elem != nil && rt.Elem.Root().K == gtext.KStruct && rt.Elem.Root().Name == sd.Name {
+			at, viaList = i, true
+			break
+		}
+		if rt.K == gtext.KStruct && rt.Name == sd.Name && at < 0 {
+			at = i
+		}
+	}
+	if at < 0 || deepLeft[viaList] == 0 {
+		return
+	}
+	r := cs.c.r
+	vg.MaxDepth, vg.MaxLen = 1, 1
+	base := vg.Value(t)
+	if base.IsNil() || len(base.Items) != len(sd.Fields) {
+		return
+	}
+	base.Items[at] = gtext.Nil()
+	depth := r.Pick(70, 100, 130, 200)
+	cur := base
+	for d := 0; d < depth; d++ {
+		nxt := base.Clone()
+		if viaList {
+			nxt.Items[at] = &gtext.G{K: gtext.GList, Items: []*gtext.G{cur}}
+		} else {
+			nxt.Items[at] = cur
+		}
+		cur = nxt
+	}
+	g := cur
+	refW, err := codec.ToWire(t, g)
+	if err != nil {
+		return
+	}
+	deepLeft[viaList]--
+	cs.c.rep.Hist("value", fmt.Sprintf("valid, nested %d levels (through a list: %v)", depth, viaList))
+	tText, gt := t.Text(), g.Text()
+	wantW := "ok " + refcodec.Canon(refW).Text()
+	cs.add(opCase{Kind: "C01 ToWire", Impl: "towire " + tText + " " + gt, Canon: "w", Want: wantW,
+		Why: "the wire value produced by ToWire is not the reference encoding of the value (deeply nested valid value)", nontrivial: true})
+	cs.add(opCase{Kind: "C01 Encode", Impl: "encode " + tText + " " + gt, Canon: fmt.Sprintf("hex:%d", t.Code()), Want: wantW,
+		Why: "the bytes written by Encode do not decode, with the reference decoder, to the logical value (deeply nested valid value)", nontrivial: true})
+	cs.add(opCase{Kind: "C01 ToWire+protocol.Encode", Impl: "towireenc " + tText + " " + gt, Canon: fmt.Sprintf("hex:%d", t.Code()), Want: wantW,
+		Why: "the bytes written by ToWire + the protocol's Encode do not decode to the logical value (deeply nested valid value)", nontrivial: true})
+	expG, err := codec.FromWire(t, refW)
+	if err != nil {
+		fatal("reference FromWire failed on a reference encoding of %s: %v", tText, err)
+	}
+	enc := refW.Encode(nil)
+	cs.addDecodes("C01 Decode", tText, enc, fmt.Sprintf("ok %d %s", len(enc), expG.Text()),
+		fmt.Sprintf("Decode of the reference encoding of a valid value nested %d levels deep is not the value", depth), true)
+	// … and the value path from the same bytes: the protocol's random-access Decode, then FromWire
+	cs.add(opCase{Kind: "C01 Decode+FromWire", Impl: "decodevw " + tText + " " + hx(enc), Want: "ok " + expG.Text(),
+		Why: fmt.Sprintf("binary.Decode + FromWire of the reference encoding of a valid value nested %d levels deep is not the value", depth), nontrivial: true})
+}
+
 func shorten(s string, n int) string {
 	if len(s) > n {
 		return s[:n] + "…"
@@ -281,7 +366,7 @@ func runC01(c *checker) {
 		cs.run()
 	}
 	c01NegZeroProbe(c)
-	c.rep.Rule = "programs: random multi-file abstract programs (all base types, nested containers incl. unhashable keys and slice sets, typedef chains, enums with gaps/negatives, structs/unions/exceptions, defaults, constants, services with inheritance, go.* annotations) × CLI option sets; per named type (struct, union, exception, typedef, enum, args, result): random valid Go values (nil vs empty, unset vs set, extreme scalars, NaN outside keys) → ToWire/Encode vs reference encoding, permuted reference encoding → FromWire/Decode under {whole, 1-byte, random incl. zero-length reads, seekable}; every third value broken at one schema rule → both serialisers must fail; Default_*, Get*/IsSet* on nil and non-nil receivers, every constant; non-trivial = value with more than one node / invalid value / accessor; distinct by (program, op)"
+	c.rep.Rule = "programs: random multi-file abstract programs (all base types, nested containers incl. unhashable keys and slice sets, typedef chains, enums with gaps/negatives, structs/unions/exceptions, defaults, constants, services with inheritance, go.* annotations) × CLI option sets; per named type (struct, union, exception, typedef, enum, args, result): random valid Go values (nil vs empty, unset vs set, extreme scalars, NaN outside keys) → ToWire/Encode vs reference encoding, permuted reference encoding → FromWire / Decode / binary.Decode+FromWire under {whole, 1-byte, random incl. zero-length reads, seekable}; every third value broken at one schema rule → both serialisers must fail, also ToWire followed by the protocol's Encode, after which that path must serve the valid value again; valid values of self-containing structs nested 70–200 levels deep; Default_*, Get*/IsSet* on nil and non-nil receivers, every constant; non-trivial = value with more than one node / invalid value / accessor; distinct by (program, op)"
 }
 
 func init() { modes["C01"] = runC01 }
